@@ -108,7 +108,7 @@ func c08Scenarios(tier string) []e1lib.Scenario {
 			pol = "lifo"
 		}
 		out = append(out, e1lib.Scenario{
-			Name:     fmt.Sprintf("new cap=%d sends=%d+%d close=%v cancel=%v recv=%d pool=%s%s%s", c.Cap, c.Sends, c.Sends2, c.CloseSender, c.Cancel, c.Recv, pol, map[bool]string{true: fmt.Sprintf(" bound=%d", bound)}[bound >= 0], map[bool]string{true: " elements=any/nil"}[c.Any]),
+			Name:     fmt.Sprintf("new cap=%d sends=%d+%d close=%v cancel=%v recv=%d pool=%s%s%s", c.Cap, c.Sends, c.Sends2, c.CloseSender, c.Cancel, c.Recv, pol, map[bool]string{true: fmt.Sprintf(" bound=%d", bound)}[bound >= 0], map[bool]string{true: " elements=any/nil"}[c.Any]+map[bool]string{true: fmt.Sprintf(" receiver-sleeps=%dns", c.RecvGap)}[c.RecvGap > 0]),
 			Root:     func() { unbound.Scenario(c) },
 			Check:    c08Check(c),
 			PoolLIFO: lifo, Bound: bound, Deviations: bound >= 0, Sample: c, RealDone: c08Done(c, lifo),
@@ -152,6 +152,18 @@ func c08Scenarios(tier string) []e1lib.Scenario {
 				}
 			}
 			add(unbound.Cfg{Cap: cp, Sends: s, Recv: s / 2}, false)
+		}
+	}
+	// a receiver that takes seconds (of virtual time) per value: however long the backlog takes to drain after a cancel or a
+	// close, every completed send is delivered - no timer may cut the flush short
+	bound = -1
+	for cp := 0; cp <= 1; cp++ {
+		for _, gap := range []int{2e9, 90e9} {
+			for _, sn := range []int{2, 4} {
+				add(unbound.Cfg{Cap: cp, Sends: sn, Cancel: true, Recv: -1, RecvGap: gap}, true)
+				add(unbound.Cfg{Cap: cp, Sends: sn, CloseSender: true, Recv: -1, RecvGap: gap}, true)
+				out[len(out)-2].RealDone, out[len(out)-1].RealDone = nil, nil // the receiver really sleeps on the real runtime
+			}
 		}
 	}
 	// a backlog far beyond any plausible high-water mark (2^16, 2^17 values and a little more) while nobody receives: the
